@@ -1548,6 +1548,19 @@ func (b *Builder) V1ReviseThenProve() bool {
 			b.W.Files[root] = data
 		}
 		rev.Filesize, rev.FileMerkleRoot = uint64(len(data)), root
+		// the final revision also settles the split: value moves between the first two valid (and missed) outputs, sums
+		// kept, and the proof of this block must pay the revised outputs, not the ones the block started with
+		rev.ValidProofOutputs = append([]types.SiacoinOutput(nil), fc.ValidProofOutputs...)
+		rev.MissedProofOutputs = append([]types.SiacoinOutput(nil), fc.MissedProofOutputs...)
+		for k, outs := range [][]types.SiacoinOutput{rev.ValidProofOutputs, rev.MissedProofOutputs} {
+			if len(outs) >= 2 {
+				a := ref.Big(outs[0].Value)
+				d := new(big.Int).Mul(a, big.NewInt(int64(rapid.IntRange(1, 1000).Draw(b.T, fmt.Sprintf("revProveShift%d", k)))))
+				d.Quo(d, big.NewInt(1000))
+				outs[0].Value = cur(new(big.Int).Sub(a, d))
+				outs[1].Value = cur(new(big.Int).Add(ref.Big(outs[1].Value), d))
+			}
+		}
 		var txn types.Transaction
 		txn.FileContractRevisions = []types.FileContractRevision{{ParentID: e.ID, UnlockConditions: *l.UC, FileContract: rev}}
 		c := b.Exp.contract(e.ID, false)
